@@ -210,6 +210,24 @@ def _tree(task):
                             acc.n("subsets_of_size_%d" % size)
                             if size:
                                 acc.distinct("cases", FW.hkey((S.key(spec), nid, mode, repr(val), seq, fail_at)))
+    # a wrong-typed value that *looks like* a category booked by an earlier healthy record (the number 1.5 after the
+    # string "1.5"): whether it is refused must not depend on what the stream has booked so far
+    for nid, node in nodes:
+        if node["t"] != "Categorize":
+            continue
+        f = node["q"]
+        evs2 = [((dict(r, **{f: "1.5"}) if r.get(f) == "a" else r), w) for r, w in evs]
+        for k in range(2, max(n, 2) + 1):
+            for seq in itertools.product(range(len(evs2)), repeat=k):
+                stream = [evs2[i] for i in seq]
+                for size in range(1, k + 1):
+                    for fail_at in itertools.combinations(range(k), size):
+                        vs, nr = run_stream(spec, stream, set(fail_at), nid, "wrong", 1.5)
+                        acc.add(vs)
+                        acc.n("executions")
+                        acc.n("executions_with_lookalike_wrong_value")
+                        acc.n("faults_injected", size)
+                        acc.n("faults_that_raised", nr)
     # the same with weights whose sums round (an "add, then subtract again on failure" is only exact for dyadic weights)
     W = (0.1, 0.2, 0.7)
     for nid, node in nodes:
